@@ -77,6 +77,102 @@ def gen_cases(ctx):
     return cases
 
 
+def cli_cases(ctx):
+    """what the COMMANDS of each use actually see (environment, variables, directory, variation values), through the binary: stages of
+    one pipeline sharing a task, with and without overrides, chained and parallel, then the task run directly in the same process"""
+    import clilib
+    rng = vlib.rng_for(ctx.seed, "C08cli")
+    jobs = []
+    for _ in range(60 if ctx.tier == "thorough" else 18):
+        n = rng.randint(2, 3)
+        stages, ovs = [], []
+        for k in range(n):
+            st = {"task": "t", "name": "s%d" % k}
+            ov = {"env": None, "vars": None, "dir": ""}
+            if rng.random() < 0.6:
+                ov["env"] = {}
+                if rng.random() < 0.7:
+                    ov["env"]["E_S"] = "e%d" % k
+                if rng.random() < 0.5:
+                    ov["env"]["E_TASK"] = rng.choice(["st%d" % k, ""])
+                st["env"] = ov["env"]
+            if rng.random() < 0.6:
+                ov["vars"] = {}
+                if rng.random() < 0.7:
+                    ov["vars"]["VS"] = "v%d" % k
+                if rng.random() < 0.5:
+                    ov["vars"]["V_TASK"] = "sv%d" % k
+                st["variables"] = ov["vars"]
+            if rng.random() < 0.3:
+                ov["dir"] = "/tmp"
+                st["dir"] = "/tmp"
+            if k and rng.random() < 0.5:
+                st["depends_on"] = ["s%d" % rng.randrange(k)]
+            stages.append(st)
+            ovs.append(ov)
+        cmd = ('echo "E_TASK=${E_TASK-UNSET}|E_S=${E_S-UNSET}|VV=${VV-UNSET}|V_TASK={{.V_TASK}}|VS={{index . \"VS\"}}|PWD=$(pwd)" > "$PROJ/u.{{index . \".Stage.Name\"}}"')
+        doc = {"tasks": {"t": {"command": [cmd], "env": {"E_TASK": "task"}, "variables": {"V_TASK": "tvar"}, "variations": [{"VV": "{{.V_TASK}}"}]}}, "pipelines": {"p": stages}}
+        order = rng.choice([["p", "t"], ["t", "p", "t"]])
+        jobs.append({"id": len(jobs), "files": {"cfg.json": clilib.jcfg(doc)}, "argv": ["-c", "cfg.json", "--raw"] + order, "keep": ["u.s%d" % k for k in range(n)] + ["u.<no value>"],
+                     "ovs": ovs, "kind": "cli", "order": order})
+    return jobs
+
+
+def run_cli_part(ctx, res):
+    import clilib
+    jobs = cli_cases(ctx)
+    out = clilib.run_cli(ctx.workdir + "/cli8", jobs, timeout=30)
+    items, index = [], {}
+    for j in jobs:
+        r = out[j["id"]]
+        res.evaluations += 1
+        res.count("cli")
+        res.nontrivial_keys.add(json.dumps([j["ovs"], j["order"]], sort_keys=True))
+        case = {"kind": "cli", "argv": j["argv"], "config": json.loads(j["files"]["cfg.json"])}
+        if r["timeout"] or clilib.crashed(r) or r["rc"] != 0:
+            res.violations.append({"class": None, "what": "a pipeline whose stages share a task failed, hung or crashed", "case": case, "observed": (r.get("err") or "")[-600:]})
+            continue
+        I = Intern()
+        proj_dir = None
+        uses = [("u.s%d" % k, "(Stage 0 %s)" % coq_ov(ov, I)) for k, ov in enumerate(j["ovs"])] + [("u.<no value>", "(Direct 0)")]
+        for fn, use in uses:
+            txt = (r["files"].get(fn) or "").strip()
+            d = dict(x.split("=", 1) for x in txt.split("|") if "=" in x)
+            if fn == "u.<no value>":
+                proj_dir = d.get("PWD")
+        for fn, use in uses:
+            txt = (r["files"].get(fn) or "").strip()
+            d = dict(x.split("=", 1) for x in txt.split("|") if "=" in x)
+            if not d:
+                res.violations.append({"class": None, "what": "a use of the shared task left no record (%s)" % fn, "case": case, "observed": r["files"]})
+                break
+            env = {k: d[k] for k in ("E_TASK", "E_S") if d.get(k, "UNSET") != "UNSET"}
+            vars_ = {k: d[k] for k in ("V_TASK", "VS") if d.get(k, "<no value>") != "<no value>"}
+            pwd = "" if d.get("PWD") == proj_dir else d.get("PWD", "?")
+            k = len(items)
+            index[k] = (case, fn, r["files"])
+            t = coq_settings({"env": {"E_TASK": "task"}, "vars": {"V_TASK": "tvar"}, "dir": ""}, I)
+            items.append("(%d%%N, settings_equiv (expected (fun _ => %s) %s) %s && %s)" % (
+                k, t, use, coq_settings({"env": env, "vars": vars_, "dir": pwd}, I), vlib.cbool(d.get("VV") == "{{.V_TASK}}")))
+    bad = set()
+    for rc, o, start, cnt in vlib.coq_eval_sharded(ctx.workdir, "cases_c08cli", HEADER, items, lambda: FOOTER, shard=400):
+        if rc != 0:
+            res.mismatches.append({"what": "cases.v did not evaluate", "detail": o[-1500:]})
+            continue
+        pr = vlib.coq_printed(o)
+        bad.update(vlib.nums(pr.get("BAD", "")))
+        res.traces_validated += cnt
+    seen = set()
+    for k in sorted(bad):
+        case, fn, files = index[k]
+        key = json.dumps(case, sort_keys=True)
+        if key in seen:
+            continue
+        seen.add(key)
+        res.violations.append({"class": None, "what": "through the binary: the commands of a use (%s) saw environment / variables / directory / variation values other than the task's own layered with that use's own overrides" % fn,
+                               "case": case, "observed": files})
+
+
 def coq_amap(m, I):
     return vlib.clist(sorted(m.items()), lambda kv: "(%d, %d)" % (I(kv[0]), I(kv[1])))
 
@@ -100,6 +196,13 @@ Print BAD.
 
 def run(ctx):
     res = vlib.Result()
+    if ctx.replay_cases and any(c.get("kind") == "cli" for c in ctx.replay_cases):
+        run_cli_part(ctx, res)          # a replay of a through-the-binary case runs that section again
+        ctx.replay_cases = [c for c in ctx.replay_cases if c.get("kind") != "cli"]
+        if not ctx.replay_cases:
+            res.rule = "replay of the through-the-binary section"
+            res.samples = [{"replayed": "cli"}]
+            return res
     cases = ctx.replay_cases if ctx.replay_cases else gen_cases(ctx)
     for k, c in enumerate(cases):
         c["id"] = k
@@ -148,5 +251,7 @@ def run(ctx):
         res.violations.append({"class": None, "case": c, "observed": o,
                                "what": "an execution was handed settings other than its task's own layered with its own stage's overrides, or the task itself was modified (pipeline %d)" % (part + 1),
                                "predicted": "each stage: task settings layered with that stage's overrides; direct run: the task's own settings"})
+    if not ctx.replay_cases:
+        run_cli_part(ctx, res)
     res.samples = [cases[0], cases[len(cases) // 2]]
     return res
